@@ -45,6 +45,50 @@ def run_seed_for(base: int, prop: str, idx: int) -> int:
     return int.from_bytes(h[:6], "big")
 
 
+def with_decoy(prof, run_seed: int, tier: str, cfg: dict, ops: list):
+    """
+    In a quarter of the runs of profiles that work on one document, a second document of the same kind is
+    opened and edited FIRST and stays open (and under the continuous invariant) while the generated history
+    runs on the other one: whatever the library keeps per process instead of per document - a class
+    attribute, a module-level memo, a cache keyed by table id (ids repeat across documents built from the
+    same template) - then shows up as one document's edits in the other. The decoy history is the prefix of
+    another history of the same profile; ops are total, so any prefix of any history is a valid history.
+    """
+    share = getattr(prof, "DECOY", 0)
+    if not share:
+        return cfg, ops
+    from dsim.world import substream
+
+    rng = substream(run_seed, "decoy")
+    if rng.random() >= share:
+        return cfg, ops
+    seed2 = int.from_bytes(hashlib.sha256(f"decoy:{run_seed}".encode()).digest()[:6], "big")
+    cfg2, ops2 = prof.gen(seed2, tier, None)
+
+    def public(c):
+        return {k: v for k, v in c.items() if not k.startswith("_")}
+
+    if public(cfg2) != public(cfg):
+        return cfg, ops  # a different stratum (other aspects / flags): its ops are not meant for this configuration
+    pre = [dict(o) for o in ops2[: rng.randint(4, 14)] if o.get("op") not in ("drop",) and not o.get("fault")]
+    if not any(o.get("op") in ("new_doc", "open_fixture") for o in pre[:1]):
+        return cfg, ops
+    out = []
+    for o in pre:
+        o["d"] = 0
+        out.append(o)
+    for o in ops:
+        o = dict(o)
+        if "d" in o or o.get("op") in ("restart",):
+            o["d"] = o.get("d", 0) + 1
+        out.append(o)
+    for i, o in enumerate(out):
+        o["id"] = i
+    cfg = dict(cfg)
+    cfg["decoy_ops"] = len(pre)
+    return cfg, out
+
+
 def run_one(prop: str, run_seed: int, tier: str, ops=None, cfg=None, want_log=False, keep_ops=False, idx=None) -> dict:
     """Execute one simulated run. Pure function of (prop, run_seed, tier) or of (run_seed, cfg, ops)."""
     from dsim.sim import Sim, Violation
@@ -55,6 +99,7 @@ def run_one(prop: str, run_seed: int, tier: str, ops=None, cfg=None, want_log=Fa
     generated = ops is None
     if generated:
         cfg, ops = prof.gen(run_seed, tier, idx)
+        cfg, ops = with_decoy(prof, run_seed, tier, cfg, ops)
     faulthandler.dump_traceback_later((cfg or {}).get("wall_cap", RUN_WALL_CAP), exit=True)
     world = World(run_seed)
     res = {"seed": run_seed, "prop": prop, "nops": len(ops), "violation": None, "error": None}
@@ -182,49 +227,55 @@ def shrink(pool, prop: str, seed: int, cfg: dict, ops: list, ident: tuple, budge
         return out
 
     cur = list(ops)
-    n = 2
-    while len(cur) >= 2 and time.time() - t0 < budget_s:
-        chunk = max(1, len(cur) // n)
-        cands = []
-        for start in range(0, len(cur), chunk):
-            cands.append(cur[:start] + cur[start + chunk :])
-        cands = [c for c in cands if c]
-        res = fails_many(cands)
-        hit = next((i for i, ok in enumerate(res) if ok), None)
-        if hit is not None:
-            cur = cands[hit]
-            n = max(n - 1, 2)
-        else:
-            if chunk == 1:
+    # ddmin and argument simplification alternate: a simpler argument (a write at row 0 instead of 300)
+    # often makes further ops removable
+    for _round in range(3):
+        before = json.dumps(cur, sort_keys=True, default=str)
+        n = 2
+        while len(cur) >= 2 and time.time() - t0 < budget_s:
+            chunk = max(1, len(cur) // n)
+            cands = []
+            for start in range(0, len(cur), chunk):
+                cands.append(cur[:start] + cur[start + chunk :])
+            cands = [c for c in cands if c]
+            res = fails_many(cands)
+            hit = next((i for i, ok in enumerate(res) if ok), None)
+            if hit is not None:
+                cur = cands[hit]
+                n = max(n - 1, 2)
+            else:
+                if chunk == 1:
+                    break
+                n = min(len(cur), n * 2)
+        # argument simplification
+        changed = True
+        while changed and time.time() - t0 < budget_s:
+            changed = False
+            cands, where = [], []
+            for i, o in enumerate(cur):
+                for simpler in simplify_op(o):
+                    c = list(cur)
+                    c[i] = simpler
+                    cands.append(c)
+                    where.append(i)
+            if not cands:
                 break
-            n = min(len(cur), n * 2)
-    # argument simplification
-    changed = True
-    while changed and time.time() - t0 < budget_s:
-        changed = False
-        cands, where = [], []
-        for i, o in enumerate(cur):
-            for simpler in simplify_op(o):
-                c = list(cur)
-                c[i] = simpler
-                cands.append(c)
-                where.append(i)
-        if not cands:
+            res = fails_many(cands)
+            done = set()
+            for c, i, ok in zip(cands, where, res):
+                if ok and i not in done:
+                    # apply independently found simplifications one op at a time, re-verified next round
+                    cur = list(cur)
+                    cur[i] = c[i]
+                    done.add(i)
+                    changed = True
+            if changed:
+                if not fails_many([cur])[0]:
+                    # combination does not reproduce; fall back to applying only the first
+                    first = next(i for i, ok in enumerate(res) if ok)
+                    cur = cands[first]
+        if json.dumps(cur, sort_keys=True, default=str) == before or time.time() - t0 >= budget_s:
             break
-        res = fails_many(cands)
-        done = set()
-        for c, i, ok in zip(cands, where, res):
-            if ok and i not in done:
-                # apply independently found simplifications one op at a time, re-verified next round
-                cur = list(cur)
-                cur[i] = c[i]
-                done.add(i)
-                changed = True
-        if changed:
-            if not fails_many([cur])[0]:
-                # combination does not reproduce; fall back to applying only the first
-                first = next(i for i, ok in enumerate(res) if ok)
-                cur = cands[first]
     return cur, tests
 
 
@@ -325,6 +376,24 @@ def merge_counts(dst: dict, src: dict) -> None:
             dst[k] = dst.get(k, 0) + v
 
 
+def _sweep_stale_roots(max_age_s: int = 3600) -> None:
+    """Simulated roots of runs that the watchdog ended are left behind on tmpfs: remove the old ones."""
+    import shutil
+
+    try:
+        now = time.time()
+        for name in os.listdir("/dev/shm"):
+            if name.startswith("dsim-"):
+                pth = os.path.join("/dev/shm", name)
+                try:
+                    if now - os.lstat(pth).st_mtime > max_age_s:
+                        shutil.rmtree(pth, ignore_errors=True)
+                except OSError:
+                    pass
+    except OSError:
+        pass
+
+
 def batch(prop: str, tier: str, base_seed: int, budget_s=None, max_runs=None, workers=None) -> int:
     prof = profile_for(prop)
     tcfg = dict(TIERS[tier])
@@ -338,6 +407,7 @@ def batch(prop: str, tier: str, base_seed: int, budget_s=None, max_runs=None, wo
 
     import numbers_parser  # noqa: F401  (import once, before forking)
 
+    _sweep_stale_roots()
     known = known_index(prop)
     agg = {"stats": {}, "wstats": {}}
     digests = set()
@@ -496,6 +566,8 @@ def batch(prop: str, tier: str, base_seed: int, budget_s=None, max_runs=None, wo
             "components": {
                 "real": ["numbers_parser (all of /repo/src)", "zipfile", "plistlib", "snappy", "protobuf"],
                 "stub": ["file objects opened for writing under the simulated root (thin wrapper over tmpfs files)", "directory order", "clock for zip timestamps", "uuid source"],
+                "process_model": "each run executes in a process of its own, forked from a worker that has imported numbers_parser but never executed it; "
+                                 "several documents are open inside one run, nothing survives from one run to the next",
             },
             "known_findings_seen": {f"{k[0]} {k[1]}": n for k, n in known_seen.items()},
             "violations_reported": reported,
